@@ -95,9 +95,18 @@ class FakeSock:
             raise AssertionError("send on closed transport")
         n = len(data)
         self.send_calls.append(n)
+        if getattr(self, "_at_boundary", True):
+            self.frame_starts = getattr(self, "frame_starts", []) + [data[0] if n else None]
         k = n
         if self.accept:
-            k = min(self.accept.pop(0), n)
+            a = self.accept.pop(0)
+            if isinstance(a, str):  # scripted write fault
+                self._at_boundary = True
+                if a == "timeout":
+                    raise _socket.timeout("timed out")
+                raise BrokenPipeError(32, "Broken pipe")
+            k = min(a, n)
+        self._at_boundary = bool(k == n)
         self.sent.append(data[:k])
         self.log.append(("send", k))
         return k
